@@ -59,4 +59,10 @@ void ext4_install_obs(void);
 void ext4_run_begin(void);
 void ext4_obligations(void);
 void ext4_end_of_run(int all_exited);
+void ext4_wait_enter(struct rthr *th);
+int ext4_quiesce_progress(void);
+void ext4_stream_fill(int chan, unsigned char *buf, long n);
+void ext4_stream_written(int chan, long n);
+void ext4_stream_verify(int chan, const unsigned char *buf, long n);
+void ext4_chan_closed(int chan, int end, int shut_wr_only);
 #endif
